@@ -1097,6 +1097,10 @@ pub fn rust_variant_name(name: &str) -> String {
             prev_upper = c.is_ascii_uppercase();
         }
     }
+    if out == "Self" {
+        // the only keyword a type or variant name can spell
+        out.push('_');
+    }
     out
 }
 
